@@ -140,9 +140,10 @@ example : isValid (0x3000000000000000 : CellID) = true ∧ (1:Nat) < 6 ∧ (1234
 
 /-! ### continuity of the curve -/
 
-/-- FULL property (not proved): consecutive cells along the curve (with wrap-around, also across face
+/-- FULL property: consecutive cells along the curve (with wrap-around, also across face
     boundaries) share an edge, i.e. the successor is one of the four edge neighbours.
-    The cross-face case needs the cube-face adjacency (`cellIDFromFaceIJWrap`, soft-float). -/
+    PROVED as `S2Proofs.C01.curveContinuity` in `Properties/C01_FaceTransitions.lean` (the cross-face case uses
+    the cube-face adjacency of `cellIDFromFaceIJWrap`, soft-float, proved in `S2Proofs/WrapIJ.lean`). -/
 def CurveContinuity : Prop :=
   ∀ id : CellID, isValid id = true → nextWrap id ∈ STUV.edgeNeighbors id
 
